@@ -16,6 +16,7 @@
 #include "clang/AST/ASTConsumer.h"
 #include "clang/AST/ASTContext.h"
 #include "clang/AST/Mangle.h"
+#include "clang/AST/ParentMap.h"
 #include "clang/AST/RecursiveASTVisitor.h"
 #include "clang/Analysis/CFG.h"
 #include "clang/Frontend/CompilerInstance.h"
@@ -111,6 +112,7 @@ public:
    int                         NextId = 0;
    std::vector<const Stmt *>   Pending;   // nodes referenced but not CFG elements
    std::set<const Stmt *>      CalleeRefs; // callee operands of resolved calls (not emitted)
+   std::unique_ptr<ParentMap>  PM;         // only built for functions that contain a try statement
 
    std::string fileOf(SourceLocation L)
    {
@@ -380,6 +382,26 @@ public:
    {
       J.attribute("l", (int64_t)lineOf(S->getBeginLoc()));
       macros(S->getBeginLoc());
+
+      if (PM)
+      {
+         // is the statement inside the try-block of a CXXTryStmt?
+         const Stmt *c = S;
+         int        guard = 0;
+         while (c && guard++ < 200)
+         {
+            const Stmt *p = PM->getParent(c);
+            if (auto *TS = dyn_cast_or_null<CXXTryStmt>(p))
+            {
+               if (TS->getTryBlock() == c)
+               {
+                  J.attribute("try", 1);
+                  break;
+               }
+            }
+            c = p;
+         }
+      }
 
       if (auto *E = dyn_cast<CXXOperatorCallExpr>(S))
       {
@@ -822,6 +844,19 @@ public:
       Pending.clear();
       CalleeRefs.clear();
       NextId = 0;
+      PM.reset();
+      {
+         struct HasTry : RecursiveASTVisitor<HasTry>
+         {
+            bool found = false;
+            bool VisitCXXTryStmt(CXXTryStmt *) { found = true; return(false); }
+         } ht;
+         ht.TraverseStmt(const_cast<Stmt *>(Body));
+         if (ht.found)
+         {
+            PM.reset(new ParentMap(const_cast<Stmt *>(Body)));
+         }
+      }
       for (auto *B : *G)
       {
          for (auto &El : *B)
